@@ -125,24 +125,11 @@ theorem rollbackFabrics_idx (cfg : Cfg) (n : Node) (a : Armed) (fs : List Fabric
 theorem purgeResum_mem (n : Node) (idx : Nat) :
     (purgeResum n idx).1.fabrics = n.fabrics ∧ (purgeResum n idx).1.sessions = n.sessions ∧
     (∀ r ∈ (purgeResum n idx).1.resum, r ∈ n.resum ∧ r.fab ≠ idx) := by
-  unfold purgeResum
-  by_cases h : (n.resum.any fun r => decide (r.fab = idx)) = true
-  · simp only [h, if_true, kvTick]
-    have hmem : ∀ r ∈ n.resum.filter (fun r => decide (r.fab ≠ idx)), r ∈ n.resum ∧ r.fab ≠ idx := by
-      intro r hr
-      have := List.mem_filter.mp hr
-      exact ⟨this.1, by simpa using this.2⟩
-    by_cases h0 : n.failIn = 0
-    · simp only [h0, if_true, kvCommit]; exact ⟨rfl, rfl, hmem⟩
-    · by_cases h1 : n.failIn = 1
-      · simp only [h1]; exact ⟨rfl, rfl, hmem⟩
-      · simp only [h0, h1, if_false, kvCommit]; exact ⟨rfl, rfl, hmem⟩
-  · simp only [h]
-    refine ⟨rfl, rfl, fun r hr => ⟨hr, ?_⟩⟩
-    intro hfab
-    apply h
-    rw [List.any_eq_true]
-    exact ⟨r, hr, by simpa using hfab⟩
+  have ⟨p1, p2, _, _, _, _, p7, _⟩ := purgeResum_spec n idx
+  refine ⟨p1, p2, fun r hr => ?_⟩
+  rw [p7] at hr
+  have := List.mem_filter.mp hr
+  exact ⟨this.1, by simpa using this.2⟩
 
 def removedOf (a : Armed) (fs : List Fabric) : Option Nat :=
   if a.fab ≠ 0 ∧ !fs.any (fun f => f.idx = a.fab) then some a.fab else none
@@ -254,7 +241,8 @@ theorem checkTimeouts_noRef (cfg : Cfg) (n : Node) (sid : Option Nat) (h : NoRef
       | none => simp only []; rw [heq]; exact windowTimeout_noRef _ h1
     · simp only [ht, if_false]; exact windowTimeout_noRef n h
 
-/-- **RemoveFabric leaves nothing behind** (whatever the store answers) -/
+/-- **RemoveFabric leaves nothing behind** (whatever the store answers: a failing store leaves the
+fabric in place) -/
 theorem sessOp_rmfab_noRef (cfg : Cfg) (n : Node) (sid s idx : Nat) (mode : Mode) (h : NoRef n) :
     NoRef (sessOp cfg n sid mode (.rmfab s idx)).1 := by
   unfold sessOp
@@ -262,48 +250,43 @@ theorem sessOp_rmfab_noRef (cfg : Cfg) (n : Node) (sid s idx : Nat) (mode : Mode
   · simp only [h0, if_true]; exact h
   · simp only [h0, if_false]
     by_cases hh : hasFabric n idx = true
-    · simp only [hh, if_true, decide_not]
-      generalize hn1 : ({ n with fabrics := n.fabrics.filter (fun f => !decide (f.idx = idx)),
-                                 sessions := removeForFabric n.sessions idx (if mode.fab = idx then some sid else none) } : Node) = n1
-      have hfab1 : n1.fabrics = n.fabrics.filter (fun f => !decide (f.idx = idx)) := by rw [← hn1]
-      have hses1 : n1.sessions = removeForFabric n.sessions idx (if mode.fab = idx then some sid else none) := by rw [← hn1]
-      have hres1 : n1.resum = n.resum := by rw [← hn1]
-      have ⟨p1, p2, p3⟩ := purgeResum_mem n1 idx
-      have hN : NoRef (purgeResum n1 idx).1 := by
-        refine ⟨fun s' hs' he hf0 => ?_, fun r' hr' => ?_⟩
-        · rw [p2, hses1] at hs'
-          obtain ⟨hne, s0, hs0, he0, hm0, _⟩ := removeForFabric_live n.sessions idx _ s' hs' he
-          rw [hasFabric_eq, p1, hfab1, hasIdx_filter_ne, ← hasFabric_eq, ← hm0]
-          have := h.1 s0 hs0 he0 (by rw [hm0]; exact hf0)
-          rw [this]; simp; rw [hm0]; exact hne
-        · obtain ⟨hrm, hrf⟩ := p3 r' hr'
-          rw [hres1] at hrm
-          rw [hasFabric_eq, p1, hfab1, hasIdx_filter_ne, ← hasFabric_eq, h.2 r' hrm]
-          simp [hrf]
-      rcases hp : purgeResum n1 idx with ⟨n2, b⟩
-      rw [hp] at hN
-      simp only at hN
+    · simp only [hh, if_true]
+      have ⟨p1, p2, p3⟩ := purgeResum_mem n idx
+      rcases hp : purgeResum n idx with ⟨n2, b⟩
+      rw [hp] at p1 p2 p3
+      simp only at p1 p2 p3
+      have hN2 : NoRef n2 := by
+        refine noRef_mono (n := n) (fun i hi => by rw [p1]; exact hi) ?_ ?_ h
+        · intro s' hs' he _; rw [p2] at hs'; exact ⟨s', hs', he, rfl⟩
+        · intro r' hr'; exact ⟨r', (p3 r' hr').1, rfl⟩
       cases b with
-      | false => exact hN
+      | false => exact hN2
       | true =>
         simp only []
-        have hk : ∀ m : Node, (removeFabricKey m idx).1.fabrics = m.fabrics ∧ (removeFabricKey m idx).1.sessions = m.sessions ∧
-            (removeFabricKey m idx).1.resum = m.resum := by
-          intro m
-          unfold removeFabricKey kvTick kvCommit
-          by_cases f0 : m.failIn = 0
-          · simp only [f0, if_true]
-            by_cases hk : m.kv.hasFabric idx = true <;> simp [hk]
-          · by_cases f1 : m.failIn = 1
-            · simp [f1]
-            · simp only [f0, f1, if_false]
-              by_cases hk : m.kv.hasFabric idx = true <;> simp [hk]
-        have ⟨k1, k2, k3⟩ := hk n2
+        have hfr := (removeFabricKey_spec n2 idx).1
         rcases hrk : removeFabricKey n2 idx with ⟨n3, b3⟩
-        rw [hrk] at k1 k2 k3
-        simp only at k1 k2 k3
-        have : NoRef n3 := noRef_congr (fun i => by rw [k1]) k2 k3 hN
-        cases b3 <;> exact this
+        rw [hrk] at hfr
+        simp only at hfr
+        have hN3 : NoRef n3 := noRef_congr (fun i => by rw [hfr.fabrics]) hfr.sessions hfr.resum hN2
+        cases b3 with
+        | false => exact hN3
+        | true =>
+          simp only [ok, decide_not]
+          refine ⟨fun s' hs' he hf0 => ?_, fun r' hr' => ?_⟩
+          · obtain ⟨hne, s0, hs0, he0, hm0, _⟩ := removeForFabric_live n3.sessions idx _ s' hs' he
+            show hasFabric _ s'.mode.fab = true
+            rw [hasFabric_eq]
+            show HasIdx (List.filter (fun f => !decide (f.idx = idx)) n3.fabrics) s'.mode.fab = true
+            rw [hasIdx_filter_ne, ← hasFabric_eq, ← hm0]
+            have := hN3.1 s0 hs0 he0 (by rw [hm0]; exact hf0)
+            rw [this]; simp; rw [hm0]; exact hne
+          · have hr2 : r' ∈ n2.resum := by rw [← hfr.resum]; exact hr'
+            have hrf := (p3 r' hr2).2
+            show hasFabric _ r'.fab = true
+            rw [hasFabric_eq]
+            show HasIdx (List.filter (fun f => !decide (f.idx = idx)) n3.fabrics) r'.fab = true
+            rw [hasIdx_filter_ne, ← hasFabric_eq, hN3.2 r' hr']
+            simp [hrf]
     · simp only [hh, Bool.false_eq_true, if_false]; exact h
 
 theorem noRef_fields {n n' : Node} (hf : n'.fabrics = n.fabrics) (hs : n'.sessions = n.sessions)
@@ -330,10 +313,16 @@ theorem storeNets_fields (n : Node) :
     · simp [f1]
     · simp [f0, f1]
 
+theorem markDeferred_fields (n : Node) :
+    (markDeferred n).fabrics = n.fabrics ∧ (markDeferred n).sessions = n.sessions ∧
+    (markDeferred n).resum = n.resum ∧ (markDeferred n).kv = n.kv ∧ (markDeferred n).hist = n.hist := by
+  unfold markDeferred
+  cases n.fs <;> exact ⟨rfl, rfl, rfl, rfl, rfl⟩
+
 /-- a fabric-scoped write keeps the set of fabric indices, the sessions and the records -/
 theorem noRef_fabric_write (n : Node) (f f' : Fabric) (hidx : f'.idx = f.idx) (h : NoRef n) :
     let n1 := setFabric n f'
-    let r := if armedFor n1 f.idx then ok n1
+    let r := if armedFor n1 f.idx then ok (markDeferred n1)
       else match storeFabric n1 f' with
         | (n, true) => ok n
         | (n, false) => (n, .err "NoSpace")
@@ -345,8 +334,10 @@ theorem noRef_fabric_write (n : Node) (f f' : Fabric) (hidx : f'.idx = f.idx) (h
     exact hasIdx_map_set n.fabrics f' i
   have _ := hidx
   by_cases harm : armedFor n1 f.idx = true
-  · have : r = ok n1 := by simp [r, harm]
-    rw [this]; exact h1
+  · have : r = ok (markDeferred n1) := by simp [r, harm]
+    rw [this]
+    have ⟨m1, m2, m3, _, _⟩ := markDeferred_fields n1
+    exact noRef_fields m1 m2 m3 h1
   · have ⟨s1, s2, s3⟩ := storeFabric_fields n1 f'
     rcases hst : storeFabric n1 f' with ⟨n2, b⟩
     rw [hst] at s1 s2 s3
@@ -358,9 +349,9 @@ theorem noRef_fabric_write (n : Node) (f f' : Fabric) (hidx : f'.idx = f.idx) (h
     rw [this]; exact h2
 
 theorem sessOp_write_noRef (cfg : Cfg) (n : Node) (sid : Nat) (mode : Mode) (op : Op) (h : NoRef n)
-    (hop : (∃ s v, op = .acl s v) ∨ (∃ s v, op = .grp s v) ∨ (∃ s v, op = .label s v)) :
+    (hop : (∃ s v, op = .acl s v) ∨ (∃ s v, op = .grp s v) ∨ (∃ s v, op = .label s v) ∨ (∃ s, op = .fwrite s)) :
     NoRef (sessOp cfg n sid mode op).1 := by
-  rcases hop with ⟨s, v, rfl⟩ | ⟨s, v, rfl⟩ | ⟨s, v, rfl⟩
+  rcases hop with ⟨s, v, rfl⟩ | ⟨s, v, rfl⟩ | ⟨s, v, rfl⟩ | ⟨s, rfl⟩
   · simp only [sessOp]
     split
     · exact h
@@ -390,6 +381,12 @@ theorem sessOp_write_noRef (cfg : Cfg) (n : Node) (sid : Nat) (mode : Mode) (op 
       · cases hg : getFabric n mode.fab with
         | none => exact h
         | some f => exact noRef_fabric_write n f { f with label := v } rfl h
+  · simp only [sessOp]
+    split
+    · exact h
+    · cases hg : getFabric n mode.fab with
+      | none => exact h
+      | some f => exact noRef_fabric_write n f f rfl h
 
 theorem sessOp_simple_noRef (cfg : Cfg) (n : Node) (sid : Nat) (mode : Mode) (op : Op) (h : NoRef n)
     (hop : (∃ s, op = .openW s) ∨ (∃ s u, op = .csr s u) ∨ (∃ s c, op = .root s c) ∨
@@ -496,40 +493,42 @@ theorem sessOp_addnoc_noRef (cfg : Cfg) (n : Node) (sid s ca fid node subj ser :
             · exact h
             · split
               · exact h
-              · rename_i idx hidx
-                have hfresh := newIdx_fresh n idx hidx
-                split
+              · split
                 · exact h
-                · -- the fabric is added
-                  have hmono : ∀ (f : Fabric) (i : Nat), HasIdx n.fabrics i = true →
-                      HasIdx (n.fabrics ++ [f]) i = true := by
-                    intro f i hi; rw [hasIdx_append, hi]; rfl
+                · rename_i idx hidx
+                  have hfresh := newIdx_fresh n idx hidx
                   split
-                  · -- promoted PASE session
-                    refine ⟨fun s' hs' he hf0 => ?_, fun r' hr' => ?_⟩
-                    · simp only [List.mem_map] at hs'
-                      obtain ⟨s0, hs0, rfl⟩ := hs'
-                      by_cases hsid : s0.id = sid
-                      · simp only [hsid, if_true, Mode.fab, hasFabric_eq]
-                        rw [hasIdx_append]; simp
-                      · simp only [hsid, if_false] at he hf0 ⊢
-                        rw [hasFabric_eq]
-                        exact hmono _ _ (by rw [← hasFabric_eq]; exact h.1 s0 hs0 he hf0)
-                    · rw [hasFabric_eq]
-                      exact hmono _ _ (by rw [← hasFabric_eq]; exact h.2 r' hr')
-                  · -- already promoted PASE session: the fabric is removed again (scopeguard)
-                    refine noRef_congr (n := n) (fun i => ?_) rfl rfl h
-                    show HasIdx (List.filter (fun g => decide (g.idx ≠ idx)) (n.fabrics ++ [_])) i = HasIdx n.fabrics i
-                    simp only [decide_not]
-                    rw [hasIdx_filter_ne, hasIdx_append]
-                    by_cases hii : i = idx
-                    · subst hii
-                      rw [← hasFabric_eq, hfresh]; simp
-                    · have : ¬ idx = i := fun hh => hii hh.symm
-                      simp [hii, this]
-                  · -- CASE session
-                    exact noRef_mono (n := n) (hmono _) (fun s' hs' he _ => ⟨s', hs', he, rfl⟩)
-                      (fun r' hr' => ⟨r', hr', rfl⟩) h
+                  · exact h
+                  · -- the fabric is added
+                    have hmono : ∀ (f : Fabric) (i : Nat), HasIdx n.fabrics i = true →
+                        HasIdx (n.fabrics ++ [f]) i = true := by
+                      intro f i hi; rw [hasIdx_append, hi]; rfl
+                    split
+                    · -- promoted PASE session
+                      refine ⟨fun s' hs' he hf0 => ?_, fun r' hr' => ?_⟩
+                      · simp only [List.mem_map] at hs'
+                        obtain ⟨s0, hs0, rfl⟩ := hs'
+                        by_cases hsid : s0.id = sid
+                        · simp only [hsid, if_true, Mode.fab, hasFabric_eq]
+                          rw [hasIdx_append]; simp
+                        · simp only [hsid, if_false] at he hf0 ⊢
+                          rw [hasFabric_eq]
+                          exact hmono _ _ (by rw [← hasFabric_eq]; exact h.1 s0 hs0 he hf0)
+                      · rw [hasFabric_eq]
+                        exact hmono _ _ (by rw [← hasFabric_eq]; exact h.2 r' hr')
+                    · -- already promoted PASE session: the fabric is removed again (scopeguard)
+                      refine noRef_congr (n := n) (fun i => ?_) rfl rfl h
+                      show HasIdx (List.filter (fun g => decide (g.idx ≠ idx)) (n.fabrics ++ [_])) i = HasIdx n.fabrics i
+                      simp only [decide_not]
+                      rw [hasIdx_filter_ne, hasIdx_append]
+                      by_cases hii : i = idx
+                      · subst hii
+                        rw [← hasFabric_eq, hfresh]; simp
+                      · have : ¬ idx = i := fun hh => hii hh.symm
+                        simp [hii, this]
+                    · -- CASE session
+                      exact noRef_mono (n := n) (hmono _) (fun s' hs' he _ => ⟨s', hs', he, rfl⟩)
+                        (fun r' hr' => ⟨r', hr', rfl⟩) h
 
 theorem sessOp_updnoc_noRef (cfg : Cfg) (n : Node) (sid s node ser : Nat) (mode : Mode) (h : NoRef n) :
     NoRef (sessOp cfg n sid mode (.updnoc s node ser)).1 := by
@@ -552,30 +551,30 @@ theorem sessOp_complete_noRef (cfg : Cfg) (n : Node) (sid s : Nat) (mode : Mode)
       | none => exact h
       | some f =>
         simp only []
-        generalize hn1 : ({ n with fs := none, bc := 0, window := none, sessions := removePase n.sessions none } : Node) = n1
-        have h1 : NoRef n1 := by
-          rw [← hn1]
-          refine noRef_mono (n := n) (fun i hi => hi) ?_ (fun r' hr' => ⟨r', hr', rfl⟩) h
-          intro s' hs' he _
-          obtain ⟨s0, hs0, he0, hm0, _⟩ := removePase_live n.sessions none s' hs' he
-          exact ⟨s0, hs0, he0, by rw [hm0]⟩
-        have ⟨a1, a2, a3⟩ := storeFabric_fields n1 f
-        rcases hst : storeFabric n1 f with ⟨n2, b⟩
+        have ⟨a1, a2, a3⟩ := storeFabric_fields n f
+        rcases hst : storeFabric n f with ⟨n1, b⟩
         rw [hst] at a1 a2 a3
         simp only at a1 a2 a3
-        have h2 : NoRef n2 := noRef_fields a1 a2 a3 h1
+        have h1 : NoRef n1 := noRef_fields a1 a2 a3 h
         cases b with
-        | false => exact h2
+        | false => exact h1
         | true =>
           simp only []
-          generalize hn3 : ({ n2 with managed := true } : Node) = n3
-          have h3 : NoRef n3 := by rw [← hn3]; exact noRef_fields rfl rfl rfl h2
+          generalize hn3 : ({ n1 with managed := true } : Node) = n3
+          have h3 : NoRef n3 := by rw [← hn3]; exact noRef_fields rfl rfl rfl h1
           have ⟨b1, b2, b3⟩ := storeNets_fields n3
           rcases hsn : storeNets n3 with ⟨n4, b4⟩
           rw [hsn] at b1 b2 b3
           simp only at b1 b2 b3
           have h4 : NoRef n4 := noRef_fields b1 b2 b3 h3
-          cases b4 <;> exact h4
+          cases b4 with
+          | false => exact noRef_fields rfl rfl rfl h4
+          | true =>
+            simp only [ok]
+            refine noRef_mono (n := n4) (fun i hi => hi) ?_ (fun r' hr' => ⟨r', hr', rfl⟩) h4
+            intro s' hs' he _
+            obtain ⟨s0, hs0, he0, hm0, _⟩ := removePase_live n4.sessions none s' hs' he
+            exact ⟨s0, hs0, he0, by rw [hm0]⟩
 
 theorem addSess_noRef (cfg : Cfg) (n : Node) (mode : Mode) (peer gen : Nat) (h : NoRef n)
     (hm : mode.fab ≠ 0 → hasFabric n mode.fab = true) : NoRef (addSess cfg n mode peer gen).1 := by
@@ -619,7 +618,8 @@ theorem sessOp_noRef (cfg : Cfg) (n : Node) (sid : Nat) (mode : Mode) (op : Op) 
   | updnoc s node ser => exact sessOp_updnoc_noRef cfg n sid s node ser mode h
   | acl s v => exact sessOp_write_noRef cfg n sid mode _ h (Or.inl ⟨s, v, rfl⟩)
   | grp s v => exact sessOp_write_noRef cfg n sid mode _ h (Or.inr (Or.inl ⟨s, v, rfl⟩))
-  | label s v => exact sessOp_write_noRef cfg n sid mode _ h (Or.inr (Or.inr ⟨s, v, rfl⟩))
+  | label s v => exact sessOp_write_noRef cfg n sid mode _ h (Or.inr (Or.inr (Or.inl ⟨s, v, rfl⟩)))
+  | fwrite s => exact sessOp_write_noRef cfg n sid mode _ h (Or.inr (Or.inr (Or.inr ⟨s, rfl⟩)))
   | net s v => exact sessOp_simple_noRef cfg n sid mode _ h (Or.inr (Or.inr (Or.inr (Or.inl ⟨s, v, rfl⟩))))
   | rmnet s v => exact sessOp_simple_noRef cfg n sid mode _ h (Or.inr (Or.inr (Or.inr (Or.inr ⟨s, v, rfl⟩))))
   | complete s => exact sessOp_complete_noRef cfg n sid s mode h
@@ -627,39 +627,35 @@ theorem sessOp_noRef (cfg : Cfg) (n : Node) (sid : Nat) (mode : Mode) (op : Op) 
   | revoke s => exact sessOp_revoke_noRef cfg n sid s mode h
   | _ => exact h
 
+/-- a change of the `reserved` flags only -/
+theorem noRef_flag_map {n : Node} (g : Sess → Sess) (hg : ∀ s, (g s).mode = s.mode ∧ (g s).expired = s.expired)
+    (h : NoRef n) : NoRef { n with sessions := n.sessions.map g } := by
+  refine noRef_mono (n := n) (fun i hi => hi) ?_ (fun r' hr' => ⟨r', hr', rfl⟩) h
+  intro s' hs' he _
+  simp only [List.mem_map] at hs'
+  obtain ⟨s0, hs0, rfl⟩ := hs'
+  exact ⟨s0, hs0, by rw [← (hg s0).2]; exact he, by rw [(hg s0).1]⟩
+
+theorem noRef_fresh (now g : Nat) : NoRef ({ now := now, nextGen := g } : Node) :=
+  ⟨fun s hs _ _ => absurd hs (by simp), fun r hr => absurd hr (by simp)⟩
+
 /-- **`NoRef` is an invariant of every operation** - whatever the store answers, whichever session
 issues the command - except the factory reset (which does not touch the session table; the node is
 expected to restart after it). -/
 theorem step_noRef (cfg : Cfg) (n : Node) (op : Op) (h : NoRef n) (hop : op ≠ .freset) :
     NoRef (step cfg n op).1 := by
-  unfold step
   cases hso : isSessOp op with
   | some sid =>
-    simp only []
-    cases hg : getSess n sid with
-    | none => exact h
-    | some s0 =>
-      simp only []
-      have h1 := checkTimeouts_noRef cfg n (some sid) h
-      rcases hct : checkTimeouts cfg n (some sid) with ⟨n1, e⟩
-      rw [hct] at h1
-      cases e with
-      | some e => exact h1
-      | none =>
-        simp only []
-        cases hg1 : getSess n1 sid with
-        | none => exact h1
-        | some s1 =>
-          simp only []
-          split
-          · exact h1
-          · exact sessOp_noRef cfg n1 sid s1.mode op h1
+    have h1 := checkTimeouts_noRef cfg n (some sid) h
+    rcases step_sess cfg n op sid hso with e | e | ⟨s1, _, e⟩
+    · rw [e]; exact h
+    · rw [e]; exact h1
+    · rw [e]; exact sessOp_noRef cfg _ sid s1.mode op h1
   | none =>
-    simp only []
     cases op with
-    | boot => simp only []; split <;> first | exact h | exact noRef_fields rfl rfl rfl h
+    | boot => simp only [step, isSessOp]; split <;> first | exact h | exact noRef_fields rfl rfl rfl h
     | pase =>
-      simp only []
+      simp only [step, isSessOp]
       split
       · exact h
       · have := addSess_noRef cfg n (.pase 0) 0 0 h (fun hne => absurd rfl hne)
@@ -667,7 +663,7 @@ theorem step_noRef (cfg : Cfg) (n : Node) (op : Op) (h : NoRef n) (hop : op ≠ 
         rw [hr] at this
         cases o <;> exact this
     | caseEst fab node rid =>
-      simp only []
+      simp only [step, isSessOp]
       split
       · exact h
       · rename_i f hf
@@ -692,8 +688,53 @@ theorem step_noRef (cfg : Cfg) (n : Node) (op : Op) (h : NoRef n) (hop : op ≠ 
           · exact this.2 r' hm
           · show hasFabric n1 fab = true
             rw [hasFabric_eq, hfe, ← hasFabric_eq]; exact hfab
+    | hs fab node rid =>
+      simp only [step, isSessOp]
+      split
+      · exact h
+      · rename_i f hf
+        have hfab : hasFabric n fab = true := by
+          split at hf
+          · cases hf
+          · have hidx := getFabric_idx hf
+            unfold hasFabric
+            rw [List.any_eq_true]
+            exact ⟨f, List.mem_of_find?_eq_some hf, by simpa using hidx⟩
+        have := addSess_noRef cfg n (.case fab) node f.gen h (fun _ => hfab)
+        have hfe : (addSess cfg n (.case fab) node f.gen).1.fabrics = n.fabrics := by
+          unfold addSess; simp only []; split <;> rfl
+        rcases hr : addSess cfg n (.case fab) node f.gen with ⟨n1, o⟩
+        rw [hr] at this hfe
+        simp only at hfe
+        cases o with
+        | none => exact this
+        | some id =>
+          have h2 := noRef_flag_map (n := n1) (fun s => if s.id = id then { s with reserved := true } else s)
+            (fun s => by split <;> exact ⟨rfl, rfl⟩) this
+          refine ⟨h2.1, fun r' hr' => ?_⟩
+          rcases resumInsert_mem cfg n1.resum _ r' hr' with hm | rfl
+          · exact this.2 r' hm
+          · show hasFabric n1 fab = true
+            rw [hasFabric_eq, hfe, ← hasFabric_eq]; exact hfab
+    | hsdone sid =>
+      simp only [step, isSessOp]
+      split
+      · have h2 := noRef_flag_map (n := n) (fun s => if s.id = sid then { s with reserved := false } else s)
+          (fun s => by split <;> exact ⟨rfl, rfl⟩) h
+        exact noRef_fields rfl rfl rfl h2
+      · exact h
+    | nop => exact h
+    | sdrop sid =>
+      simp only [step, isSessOp]
+      split
+      · exact h
+      · exact noRef_mono (n := n) (fun i hi => hi)
+          (fun s' hs' he _ => ⟨s', (List.mem_filter.mp hs').1, he, rfl⟩)
+          (fun r' hr' => ⟨r', hr', rfl⟩) h
+    | coldreset => exact noRef_fresh _ _
+    | fabrecover i => exact noRef_fresh _ _
     | resume rid newRid =>
-      simp only []
+      simp only [step, isSessOp]
       split
       · exact h
       · rename_i r hr0
@@ -717,13 +758,13 @@ theorem step_noRef (cfg : Cfg) (n : Node) (op : Op) (h : NoRef n) (hop : op ≠ 
               rw [hasFabric_eq, hfe, ← hasFabric_eq]; exact hfab
     | tick secs => exact noRef_fields rfl rfl rfl h
     | poll =>
-      simp only []
+      simp only [step, isSessOp]
       have := checkTimeouts_noRef cfg n none h
       rcases hr : checkTimeouts cfg n none with ⟨n1, e⟩
       rw [hr] at this
       cases e <;> exact this
     | flush =>
-      simp only [kvTick]
+      simp only [step, isSessOp, kvTick]
       by_cases f0 : n.failIn = 0
       · simp only [f0, if_true]; exact noRef_fields rfl rfl rfl h
       · by_cases f1 : n.failIn = 1
